@@ -13,11 +13,14 @@ type point struct {
 
 // Chooser is handed to one execution.
 type Chooser struct {
-	prefix  []int
-	Choices []int
-	points  []point
+	prefix   []int
+	Choices  []int
+	points   []point
 	Diverged string
 }
+
+// NewChooser returns a chooser that replays the given choices and then takes defaults.
+func NewChooser(prefix []int) *Chooser { return &Chooser{prefix: prefix} }
 
 // Choose returns the alternative to take at this point (0 = default).
 func (c *Chooser) Choose(n int) int { return c.ChooseCost(n, 1) }
@@ -42,12 +45,16 @@ func (c *Chooser) ChooseCost(n, cost int) int {
 }
 
 type Explorer struct {
-	Bound     int                  // maximum number of deviations
-	MaxExec   int64                // safety cap (0 = none)
-	Run       func(c *Chooser)     // one complete execution
-	Stop      func() bool          // polled between executions (run deadline)
+	Bound   int              // maximum number of deviations
+	MaxExec int64            // safety cap (0 = none)
+	Run     func(c *Chooser) // one complete execution
+	Stop    func() bool      // polled between executions (run deadline)
+	// Shard/Of: the subtrees hanging off the default execution are dealt round-robin
+	// to Of processes (the default execution itself is run by every shard).
+	Shard, Of  int
+	top        int64
 	Executions int64
-	Capped    bool
+	Capped     bool
 	Divergence string
 }
 
@@ -74,6 +81,12 @@ func (e *Explorer) explore(prefix []int) {
 			p := c.points[i]
 			if dev+p.cost <= e.Bound {
 				for alt := 1; alt < p.n; alt++ {
+					if len(prefix) == 0 && e.Of > 1 {
+						e.top++
+						if int(e.top%int64(e.Of)) != e.Shard {
+							continue
+						}
+					}
 					next := append(append([]int{}, c.Choices[:i]...), alt)
 					e.explore(next)
 				}
